@@ -1339,9 +1339,75 @@ def concurrent_writer_case(ctx):
         shutil.rmtree(d, ignore_errors=True)
 
 
+def zone_case(ctx):
+    """The clean-up of complete levels of a sqlite cache (one DELETE per level: `remove_level_tiles_before`) in server
+    processes west and east of Greenwich - the cache keeps its time stamps as local time text, the cut-off has to be
+    brought there the same way.  A tile three hours old, a tile one hour old, a tile of another level; remove_before: two
+    hours.  The old one goes, the other two stay."""
+    import io
+    import contextlib
+    import shutil
+    import tempfile
+    import mapproxy.cache.mbtiles as mb
+    from engine import zone as Z
+    from mapproxy.config.loader import ProxyConfiguration
+    from mapproxy.seed.config import SeedingConfiguration
+    from mapproxy.seed.cleanup import cleanup
+    from mapproxy.cache.tile import Tile
+    from mapproxy.image import ImageSource
+
+    class _At(object):
+        def __init__(self, t):
+            self.t = t
+
+        def time(self):
+            return self.t
+
+        def __getattr__(self, name):
+            return getattr(_time, name)
+
+    for tz in (Z.WEST, Z.EAST):
+        d = tempfile.mkdtemp(prefix='verif-c12-zone-')
+        try:
+            with Z.zone(tz):
+                conf = {'services': {'tms': {}},
+                        'grids': {'u': {'srs': 'EPSG:3857', 'bbox': [0, 0, 1024, 1024], 'res': [4, 2, 1], 'tile_size': [16, 16], 'origin': 'll'}},
+                        'sources': {'s': {'type': 'wms', 'req': {'url': 'http://up.invalid/s', 'layers': 'x'}}},
+                        'caches': {'c': {'grids': ['u'], 'sources': ['s'], 'meta_size': [1, 1], 'meta_buffer': 0,
+                                         'cache': {'type': 'sqlite', 'directory': os.path.join(d, 'cache')}}},
+                        'layers': [{'name': 'l', 'title': 'l', 'sources': ['c']}],
+                        'globals': {'cache': {'base_dir': os.path.join(d, 'cd'), 'lock_dir': os.path.join(d, 'l'), 'tile_lock_dir': os.path.join(d, 'tl')}}}
+                sconf = {'cleanups': {'k': {'caches': ['c'], 'grids': ['u'], 'levels': [1], 'remove_before': {'hours': 2}}}}
+                pc = ProxyConfiguration(conf, conf_base_dir=d, seed=True, renderd=False)
+                tasks = SeedingConfiguration(sconf, mapproxy_conf=pc).cleanups(['k'])
+                tm = tasks[0].tile_manager
+                now = _time.time()
+                tiles = {'old': ((0, 0, 1), now - 3 * 3600), 'new': ((1, 0, 1), now - 3600), 'other level': ((0, 0, 2), now - 3 * 3600)}
+                from PIL import Image
+                for name, (coord, at) in tiles.items():
+                    buf = io.BytesIO()
+                    Image.new('RGB', (16, 16), (10, 20, 30)).save(buf, 'PNG')
+                    buf.seek(0)
+                    with patched(mb, 'time', _At(at)):
+                        tm.cache.store_tile(Tile(coord, ImageSource(buf)))
+                with contextlib.redirect_stdout(io.StringIO()):
+                    cleanup(tasks, concurrency=1, dry_run=False, skip_geoms_for_last_levels=0, progress_logger=None)
+                left = {name for name, (coord, at) in tiles.items() if tm.cache.is_cached(Tile(coord))}
+                tm.cleanup()
+            ctx.count(('zone', tz, tuple(sorted(left))))
+            if left != {'new', 'other level'}:
+                ctx.violation({'kind': 'zone', 'backend': 'sqlite-level', 'tz': tz},
+                              'sqlite cache, server zone %s, clean-up of level 1 with remove_before: 2 hours over a tile 3 hours old, a tile '
+                              '1 hour old and a tile of level 2: left afterwards %s (the tile 1 hour old and the one of level 2 have to stay, '
+                              'the old one has to go)' % (tz, sorted(left)), {'tz': tz})
+        finally:
+            shutil.rmtree(d, ignore_errors=True)
+
+
 def _finish(ctx):
     rotated_coverage_case(ctx)
     concurrent_writer_case(ctx)
+    zone_case(ctx)
     ctx.assumptions += [
         'time is compared at one-second granularity: tiles written in the second of the threshold may be kept or removed; '
         'a meta tile that only touches the coverage (no common interior) may be handled or skipped',
